@@ -238,6 +238,13 @@ def run(ctx: Ctx):
 
     time_aliases(ctx, "R19.f")
 
+    ctx.rule("R19.h", "a model quantity is ordered and kept or dropped by its *name*, whatever the name is: the sorter gets every dependency of every assignment (none filtered out because it looks like one of the generator's own names), and whether a definition is used is `name in ODE.dependents()`, not identity of sympy symbols (two symbols called `t` with different assumptions print the same and compare unequal)", floor=8)
+    from .c01 import REF_SORT_ASSIGNMENTS
+    from .c12 import liveness_rules
+
+    util.same_as_reference(ctx, "R19.h", "ode.py", "sort_assignments", REF_SORT_ASSIGNMENTS, "node-predecessors", "sorter.add(name, *sorted dependencies of that assignment) for every assignment", "sort_assignments does not feed the sorter with every dependency of every assignment: a definition named like one of the generator's own names (t, time) is printed after its use, which then reads the generator's own variable")
+    liveness_rules(ctx, {"a": "R19.h", "b": "R19.h"}, declare=False)
+
     ctx.rule("R19.g", "the generators bind no names of their own making besides the reserved ones: no run-time generated temporaries (sympy.cse / numbered_symbols / Dummy), and the name -> slot lookups and the writer's constants match whole identifiers only", floor=4)
     check_generated_names(ctx, "R19.g")
 
@@ -264,11 +271,19 @@ def run(ctx: Ctx):
                         if isinstance(v, ast.Attribute) and v.attr in ("i", "j"):
                             continue  # matrix element indices (integers)
                         bad.append(norm(v))
+                    elif isinstance(n, ast.Call) and isinstance(n.func, ast.Attribute) and n.func.attr == "format" and isinstance(n.func.value, ast.Constant) and isinstance(n.func.value.value, str):
+                        # "...".format(a, *rest, k=v): each argument is judged like an f-string field
+                        for v in [a.value if isinstance(a, ast.Starred) else a for a in n.args] + [k.value for k in n.keywords]:
+                            if isinstance(v, ast.Name) and (v.id in good or v.id in ("func", "relop", "index")):
+                                continue
+                            if isinstance(v, ast.Call) and (dotted(v.func) or norm(v.func)).split(".")[-1] in ("_print", "_module_format", "join", "str", "repr", "float"):
+                                continue
+                            if isinstance(v, ast.Constant):
+                                continue
+                            bad.append(norm(v))
                 key = f"{pr}-printer::{g.name}.{mname}::interpolation"
                 if pr == "jax" and g.name != "JaxPrinter":
                     continue
-                from . import util
-
                 val = util.value_of(ctx, f)
                 if not _av.has_unk(val):
                     # judged on the value the method returns (helpers expanded, locals resolved)
@@ -289,6 +304,9 @@ def raw_holes(v, safe_binders=frozenset()) -> list[str]:
             return True
         if t in ("call", "mcall"):
             tail = (x[1] if t == "call" else x[2]).split(".")[-1]
+            if t == "call" and tail in ("str", "repr") and x[2]:
+                # str(float(x)) is a number; str(<a sympy object>) is sympy's own text, which skips the printer
+                return all(safe(a_, sb) for a_ in x[2])
             if tail in SAFE_CALLS or tail.startswith("_print_"):
                 return True
             if t == "call" and tail in ("zip", "reversed", "list", "tuple", "enumerate", "sorted") and x[2]:
